@@ -100,6 +100,50 @@ type Node struct {
 // Graph is a list of nodes; Val.Node indexes into it.
 type Graph struct {
 	Nodes []*Node `json:"nodes"`
+	// Bulk is a number of inert filler nodes that belong to the graph but are only materialised by the serialiser:
+	// class ex:Filler, one label, one link to another filler through ex:fillerNext. Nothing in a generated profile
+	// mentions them, so the reference model ignores them; they exist to make documents with hundreds of nodes.
+	// With BulkBlank every other filler is a blank node.
+	Bulk      int  `json:"bulk,omitempty"`
+	BulkBlank bool `json:"bulk_blank,omitempty"`
+}
+
+// withFillers returns the graph with its filler nodes materialised and a node order in which the real nodes keep
+// their relative order and the fillers are spread evenly between them.
+func (g *Graph) withFillers(order []int) (*Graph, []int) {
+	n := len(g.Nodes)
+	if len(order) != n {
+		order = make([]int, n)
+		for i := range order {
+			order[i] = i
+		}
+	}
+	g2 := &Graph{Nodes: append([]*Node{}, g.Nodes...)}
+	k := g.Bulk
+	for i := 0; i < k; i++ {
+		id := NodeNS + "filler" + strconv.Itoa(i)
+		if g.BulkBlank && i%2 == 1 {
+			id = "_:filler" + strconv.Itoa(i)
+		}
+		f := &Node{ID: id, Types: []string{NS + "Filler"}, Props: map[string][]Val{}}
+		f.AddVal(NS+"fillerLabel", LV(S("f"+strconv.Itoa(i))))
+		f.AddVal(NS+"fillerNext", NV(n+(i+k/2+1)%k))
+		g2.Nodes = append(g2.Nodes, f)
+	}
+	var out []int
+	per := k / (n + 1)
+	next := 0
+	for _, i := range order {
+		for j := 0; j < per; j++ {
+			out = append(out, n+next)
+			next++
+		}
+		out = append(out, i)
+	}
+	for ; next < k; next++ {
+		out = append(out, n+next)
+	}
+	return g2, out
 }
 
 func NodeID(i int) string { return NodeNS + "n" + strconv.Itoa(i) }
@@ -198,6 +242,7 @@ type LDOpts struct {
 	Reverse    bool  `json:"reverse,omitempty"`     // state the last node value of every property on the target node, under @reverse
 	Coerce     bool  `json:"coerce,omitempty"`      // with Context: properties holding node references only get a term definition with "@type":"@id" and their references are written as strings
 	SetObj     bool  `json:"set_obj,omitempty"`     // write value arrays as {"@set":[…]}
+	PadBytes   int   `json:"pad_bytes,omitempty"`   // pad the document with insignificant white space up to this many bytes
 }
 
 type omap struct {
@@ -270,6 +315,11 @@ func encodeJSON(sb *strings.Builder, v any, rot int, indent int, level int) {
 
 // JSONLD serialises the graph under the given options.
 func (g *Graph) JSONLD(o LDOpts) string {
+	splitFar := false
+	if g.Bulk > 0 {
+		g, o.NodeOrder = g.withFillers(o.NodeOrder)
+		splitFar = true // the two entries of a split node end up far apart
+	}
 	iri := func(full string) string { // property / class IRIs
 		if o.Context && strings.HasPrefix(full, NS) {
 			if o.Vocab {
@@ -452,7 +502,7 @@ func (g *Graph) JSONLD(o LDOpts) string {
 		}
 		return m
 	}
-	var top []any
+	var top, late []any
 	for _, i := range order {
 		if emitted[i] {
 			continue
@@ -464,11 +514,16 @@ func (g *Graph) JSONLD(o LDOpts) string {
 			h := len(ps) / 2
 			first := append([]string{"@type"}, ps[:h]...)
 			top = append(top, nodeObj(i, true, first))
-			top = append(top, nodeObj(i, true, ps[h:]))
+			if splitFar {
+				late = append(late, nodeObj(i, true, ps[h:]))
+			} else {
+				top = append(top, nodeObj(i, true, ps[h:]))
+			}
 		} else {
 			top = append(top, nodeObj(i, true, nil))
 		}
 	}
+	top = append(top, late...)
 	var doc any = top
 	var ctx *omap
 	if o.Context {
@@ -520,7 +575,12 @@ func (g *Graph) JSONLD(o LDOpts) string {
 	}
 	var sb strings.Builder
 	encodeJSON(&sb, doc, o.KeyRot, o.Indent, 0)
-	return sb.String()
+	out := sb.String()
+	if pad := o.PadBytes - len(out); pad > 0 && len(out) > 0 {
+		// insignificant white space after the opening bracket
+		out = out[:1] + "\n" + strings.Repeat(" ", pad) + out[1:]
+	}
+	return out
 }
 
 func (g *Graph) String() string {
